@@ -3,6 +3,7 @@ package vc
 import (
 	"fmt"
 	"go/types"
+	"slices"
 	"strings"
 )
 
@@ -103,6 +104,70 @@ func (e *Engine) VerifyLemma(key string) (rep *FuncReport) {
 }
 
 // lemmaFact returns the quantified statement of a lemma, for use in function c.
+// axiomTrigger gives a top-level universally quantified axiom an explicit multi-pattern made of
+// the applications of pure (uninterpreted) functions `pf_...` that occur in it, provided they
+// mention every bound variable: the axiom is then instantiated by matching ground terms
+// instead of by model-based search (which makes every query of the package slower).
+func axiomTrigger(t string) string {
+	if !strings.HasPrefix(t, "(forall (") || strings.Contains(t, ":pattern") {
+		return t
+	}
+	bl, n := readSexp(t[len("(forall "):])
+	body := strings.TrimSpace(t[len("(forall ")+n : len(t)-1])
+	var vars []string
+	rest := bl[1 : len(bl)-1]
+	for {
+		b, k := readSexp(rest)
+		if b == "" {
+			break
+		}
+		rest = rest[k:]
+		fs := strings.Fields(strings.TrimPrefix(b, "("))
+		if len(fs) > 0 {
+			vars = append(vars, fs[0])
+		}
+	}
+	var pats []string
+	seen := map[string]bool{}
+	for i := 0; i+4 < len(body); i++ {
+		if strings.HasPrefix(body[i:], "(pf_") {
+			p, _ := readSexp(body[i:])
+			// only applications to bound variables directly (no nested terms), of the first result
+			if !seen[p] && !strings.Contains(p[1:], "(") {
+				seen[p] = true
+				pats = append(pats, p)
+			}
+		}
+	}
+	// greedy cover in order of appearance (the hypotheses come first): a term joins the
+	// multi-pattern only when it mentions a bound variable not covered yet
+	var keep []string
+	covered := map[string]bool{}
+	for _, p := range pats {
+		adds := false
+		for _, f := range strings.Fields(strings.Trim(p, "()"))[1:] {
+			if slices.Contains(vars, f) && !covered[f] {
+				adds = true
+			}
+		}
+		if adds {
+			keep = append(keep, p)
+			for _, f := range strings.Fields(strings.Trim(p, "()"))[1:] {
+				covered[f] = true
+			}
+		}
+	}
+	for _, v := range vars {
+		if !covered[v] {
+			return t
+		}
+	}
+	if len(keep) == 0 {
+		return t
+	}
+	return fmt.Sprintf("(forall %s (! %s :pattern (%s)))", bl, body, strings.Join(keep, " "))
+}
+
 func (c *FnCtx) lemmaFact(name string) string {
 	ct := c.E.Contracts["lemma:"+name]
 	if ct == nil {
